@@ -212,3 +212,10 @@ Definition safe_at (cal : bool) (p : proj) (e : edit) (n k : nat) : bool :=
 (* the two crash points after which a follow-up can succeed on stale files *)
 Definition deps_pt (p : proj) := 2 + 3 * n_imm p + 1.      (* .bfg_find_deps opened, not yet written *)
 Definition window_pt (p : proj) := 2 + 3 * n_imm p + 4.    (* .bfg_find_cache saved, build file not yet opened *)
+
+(* the edit is visible to the project: build.bfg changed, or a find_files result changed *)
+Definition valid (p : proj) (e : edit) : bool := e_script e || (uses_find p && e_dir e).
+
+(* crash points after which a follow-up succeeds on stale files (only when build.bfg itself was not edited) *)
+Definition bad_point (cal : bool) (p : proj) (e : edit) (n : nat) : bool :=
+  uses_find p && negb (e_script e) && ((n =? deps_pt p) || (negb cal && (n =? window_pt p))).
